@@ -1,21 +1,25 @@
-(* C10: evaluation of well-typed expressions never panics - PARTIAL version.
+(* C10: evaluation of well-typed expressions never panics.
 
-   Intended headline (DESIGN.md): eval_total_on_typed - well-typed view bodies never reach Panic.
-   Proved here: eval_total_on_typed_partial, for the let-free expression fragment
-     names, literals, if, integer + - * and comparisons, string concatenation / equality, boolean and / equality /
-     negation, list and set literals, list concatenation (list|list, list|set), set union of int / string sets,
-     string membership in lists and sets, count, where over lists and sets and flatten over lists/sets of lists/sets
-     (scope variable typed in the body), != , division and remainder by a non-zero literal.
-   Missing from the full statement: transforms (records, lets, `set of` results), attribute access, calls to other
-   views, flatten over maps, division by a computed divisor, unary string.  For those the property is tied by the
-   correspondence run only. *)
+   eval_total_on_typed: for the typing judgement [has_type] below (declarative, 36 rules + statement / argument
+   judgements) there is a fuel bound beyond which evaluation returns a value of the expression's type - no Panic, no
+   OutOfFuel, no Unmodelled - in a scope that still types.  The judgement covers: names, literals, if, integer
+   + - * and comparisons, / and % by a non-zero literal, string concatenation / equality, boolean and / equality /
+   negation, != , list and set literals, list concatenation, set union of int / string sets, string membership,
+   count, where over lists and sets, flatten over lists / sets of lists / sets, attribute access on records,
+   transforms of a scalar (one record) and over lists and sets (list or `set of` result) with `let` and assignment
+   statements, and calls of other views (the callee's typing derivation is part of the caller's, so recursion is
+   excluded).  A `let` must take a name that is not bound where it stands (otherwise it replaces that binding for
+   good - the known finding); scope variables may shadow.
+   NOT covered by the judgement (tied by the correspondence run only): transforms over the entries of a map and
+   attribute access on (key, value) pairs, flatten over collections of maps, transforms whose argument is a record,
+   division by a computed divisor, str / single, maps as `in` operand. *)
 From Coq Require Import String List ZArith Bool Ascii Lia.
 Import ListNotations.
 Require Import Verif.Eval.Value Verif.Eval.Interp Verif.Eval.Tables Verif.Eval.PureProps Verif.Eval.SemProps Verif.Gen.EvalTables.
 Local Open Scope string_scope.
 Local Open Scope list_scope.
 
-Inductive ty := TInt | TStr | TBool | TList (t:ty) | TSet (t:ty).
+Inductive ty := TInt | TStr | TBool | TList (t:ty) | TSet (t:ty) | TRec (fs:list (string * ty)).
 
 Fixpoint vtyped (v:value) (t:ty) {struct v} : bool :=
   match v, t with
@@ -24,8 +28,20 @@ Fixpoint vtyped (v:value) (t:ty) {struct v} : bool :=
   | VBool _, TBool => true
   | VList l, TList t' => forallb (fun x => vtyped x t') l
   | VSet l, TSet t' => forallb (fun x => vtyped x t') l
+  | VMap m, TRec fs =>
+      (fix go (m:list (string * value)) (fs:list (string * ty)) {struct m} : bool :=
+         match m, fs with
+         | [], [] => true
+         | (k, v) :: m', (k', t') :: fs' => String.eqb k k' && vtyped v t' && go m' fs'
+         | _, _ => false
+         end) m fs
   | _, _ => false
   end.
+(* a record value: the same keys in the same (sorted) order, every field of its type *)
+Definition rec_typed (m:list (string * value)) (fs:list (string * ty)) : bool := vtyped (VMap m) (TRec fs).
+Lemma rec_typed_cons k v m k' t fs :
+  rec_typed ((k, v) :: m) ((k', t) :: fs) = String.eqb k k' && vtyped v t && rec_typed m fs.
+Proof. reflexivity. Qed.
 
 Definition tenv := list (string * ty).
 Definition tlookup (x:string) (G:tenv) : option ty := assoc String.eqb x G.
@@ -34,47 +50,89 @@ Inductive arith_op : binop -> Prop := A_add : arith_op OpADD | A_sub : arith_op 
 Inductive cmp_op : binop -> Prop := C_lt : cmp_op OpLT | C_le : cmp_op OpLE | C_gt : cmp_op OpGT | C_ge : cmp_op OpGE | C_eq : cmp_op OpEQ.
 Inductive elem_ty : ty -> Prop := E_int : elem_ty TInt | E_str : elem_ty TStr.
 
-Inductive has_type : tenv -> expr -> ty -> Prop :=
-| T_Name G x t : tlookup x G = Some t -> has_type G (EName x) t
-| T_Lit G v t : vtyped v t = true -> has_type G (ELit v) t
-| T_If G c a b t : has_type G c TBool -> has_type G a t -> has_type G b t -> has_type G (EIf c a b) t
-| T_Arith G op l r sv : arith_op op -> has_type G l TInt -> has_type G r TInt -> has_type G (EBin op l r sv) TInt
-| T_Cmp G op l r sv : cmp_op op -> has_type G l TInt -> has_type G r TInt -> has_type G (EBin op l r sv) TBool
-| T_StrConcat G l r sv : has_type G l TStr -> has_type G r TStr -> has_type G (EBin OpADD l r sv) TStr
-| T_StrEq G l r sv : has_type G l TStr -> has_type G r TStr -> has_type G (EBin OpEQ l r sv) TBool
-| T_BoolEq G l r sv : has_type G l TBool -> has_type G r TBool -> has_type G (EBin OpEQ l r sv) TBool
-| T_And G l r sv : has_type G l TBool -> has_type G r TBool -> has_type G (EBin OpAND l r sv) TBool
-| T_NegInt G a : has_type G a TInt -> has_type G (EUn UoNEG a) TInt
-| T_NegBool G a : has_type G a TBool -> has_type G (EUn UoNEG a) TBool
-| T_ListLit G es t : has_types G es t -> has_type G (EList es) (TList t)
-| T_SetLit G es t : has_types G es t -> has_type G (ESet es) (TSet t)
-| T_Concat G l r sv t : has_type G l (TList t) -> has_type G r (TList t) -> has_type G (EBin OpBITOR l r sv) (TList t)
-| T_ConcatSet G l r sv t : has_type G l (TList t) -> has_type G r (TSet t) -> has_type G (EBin OpBITOR l r sv) (TList t)
-| T_Union G l r sv t : elem_ty t -> has_type G l (TSet t) -> has_type G r (TSet t) -> has_type G (EBin OpBITOR l r sv) (TSet t)
-| T_InList G l r sv t : has_type G l TStr -> has_type G r (TList t) -> has_type G (EBin OpIN l r sv) TBool
-| T_InSet G l r sv t : has_type G l TStr -> has_type G r (TSet t) -> has_type G (EBin OpIN l r sv) TBool
-| T_CountList G a t : has_type G a (TList t) -> has_type G (ECall ".count" [a]) TInt
-| T_CountSet G a t : has_type G a (TSet t) -> has_type G (ECall ".count" [a]) TInt
-| T_WhereList G l r sv t : has_type G l (TList t) -> has_type ((sv, t) :: G) r TBool -> has_type G (EBin OpWHERE l r sv) (TList t)
-| T_WhereSet G l r sv t : has_type G l (TSet t) -> has_type ((sv, t) :: G) r TBool -> has_type G (EBin OpWHERE l r sv) (TSet t)
-| T_NeInt G l r sv : has_type G l TInt -> has_type G r TInt -> has_type G (EBin OpNE l r sv) TBool
-| T_NeStr G l r sv : has_type G l TStr -> has_type G r TStr -> has_type G (EBin OpNE l r sv) TBool
-| T_NeBool G l r sv : has_type G l TBool -> has_type G r TBool -> has_type G (EBin OpNE l r sv) TBool
-| T_DivLit G l z sv : z <> 0%Z -> has_type G l TInt -> has_type G (EBin OpDIV l (ELit (VInt z)) sv) TInt
-| T_ModLit G l z sv : z <> 0%Z -> has_type G l TInt -> has_type G (EBin OpMOD l (ELit (VInt z)) sv) TInt
-| T_FlattenLL G l r sv t u : has_type G l (TList (TList t)) -> has_type ((sv, t) :: G) r u -> has_type G (EBin OpFLATTEN l r sv) (TList u)
-| T_FlattenLS G l r sv t u : has_type G l (TList (TSet t)) -> has_type ((sv, t) :: G) r u -> has_type G (EBin OpFLATTEN l r sv) (TList u)
-| T_FlattenSL G l r sv t u : has_type G l (TSet (TList t)) -> has_type ((sv, t) :: G) r u -> has_type G (EBin OpFLATTEN l r sv) (TSet u)
-| T_FlattenSS G l r sv t u : has_type G l (TSet (TSet t)) -> has_type ((sv, t) :: G) r u -> has_type G (EBin OpFLATTEN l r sv) (TSet u)
-with has_types : tenv -> list expr -> ty -> Prop :=
-| TS_nil G t : has_types G [] t
-| TS_cons G e es t : has_type G e t -> has_types G es t -> has_types G (e :: es) t.
+Fixpoint tput (k:string) (t:ty) (fs:list (string * ty)) : list (string * ty) :=
+  match fs with
+  | [] => [(k, t)]
+  | (k', t') :: fs' =>
+      match String.compare k k' with
+      | Lt => (k, t) :: fs
+      | Eq => (k, t) :: fs'
+      | Gt => (k', t') :: tput k t fs'
+      end
+  end.
+Definition is_pair_fs (fs:list (string * ty)) : bool :=
+  match fs with [(k1, _); (k2, _)] => String.eqb k1 "key" && String.eqb k2 "value" | _ => false end.
+Inductive scalar_ty : ty -> Prop := S_int : scalar_ty TInt | S_str : scalar_ty TStr | S_bool : scalar_ty TBool.
+Definition coll_of (k:ttype) (t:ty) : ty := match k with TySet => TSet t | _ => TList t end.
+
+Inductive has_type (vs:views) : tenv -> expr -> ty -> Prop :=
+| T_Name G x t : tlookup x G = Some t -> has_type vs G (EName x) t
+| T_Lit G v t : vtyped v t = true -> has_type vs G (ELit v) t
+| T_If G c a b t : has_type vs G c TBool -> has_type vs G a t -> has_type vs G b t -> has_type vs G (EIf c a b) t
+| T_Arith G op l r sv : arith_op op -> has_type vs G l TInt -> has_type vs G r TInt -> has_type vs G (EBin op l r sv) TInt
+| T_Cmp G op l r sv : cmp_op op -> has_type vs G l TInt -> has_type vs G r TInt -> has_type vs G (EBin op l r sv) TBool
+| T_StrConcat G l r sv : has_type vs G l TStr -> has_type vs G r TStr -> has_type vs G (EBin OpADD l r sv) TStr
+| T_StrEq G l r sv : has_type vs G l TStr -> has_type vs G r TStr -> has_type vs G (EBin OpEQ l r sv) TBool
+| T_BoolEq G l r sv : has_type vs G l TBool -> has_type vs G r TBool -> has_type vs G (EBin OpEQ l r sv) TBool
+| T_And G l r sv : has_type vs G l TBool -> has_type vs G r TBool -> has_type vs G (EBin OpAND l r sv) TBool
+| T_NegInt G a : has_type vs G a TInt -> has_type vs G (EUn UoNEG a) TInt
+| T_NegBool G a : has_type vs G a TBool -> has_type vs G (EUn UoNEG a) TBool
+| T_ListLit G es t : has_types vs G es t -> has_type vs G (EList es) (TList t)
+| T_SetLit G es t : has_types vs G es t -> has_type vs G (ESet es) (TSet t)
+| T_Concat G l r sv t : has_type vs G l (TList t) -> has_type vs G r (TList t) -> has_type vs G (EBin OpBITOR l r sv) (TList t)
+| T_ConcatSet G l r sv t : has_type vs G l (TList t) -> has_type vs G r (TSet t) -> has_type vs G (EBin OpBITOR l r sv) (TList t)
+| T_Union G l r sv t : elem_ty t -> has_type vs G l (TSet t) -> has_type vs G r (TSet t) -> has_type vs G (EBin OpBITOR l r sv) (TSet t)
+| T_InList G l r sv t : has_type vs G l TStr -> has_type vs G r (TList t) -> has_type vs G (EBin OpIN l r sv) TBool
+| T_InSet G l r sv t : has_type vs G l TStr -> has_type vs G r (TSet t) -> has_type vs G (EBin OpIN l r sv) TBool
+| T_CountList G a t : has_type vs G a (TList t) -> has_type vs G (ECall ".count" [a]) TInt
+| T_CountSet G a t : has_type vs G a (TSet t) -> has_type vs G (ECall ".count" [a]) TInt
+| T_WhereList G l r sv t : sv <> implied_result -> has_type vs G l (TList t) -> has_type vs ((sv, t) :: G) r TBool -> has_type vs G (EBin OpWHERE l r sv) (TList t)
+| T_WhereSet G l r sv t : sv <> implied_result -> has_type vs G l (TSet t) -> has_type vs ((sv, t) :: G) r TBool -> has_type vs G (EBin OpWHERE l r sv) (TSet t)
+| T_NeInt G l r sv : has_type vs G l TInt -> has_type vs G r TInt -> has_type vs G (EBin OpNE l r sv) TBool
+| T_NeStr G l r sv : has_type vs G l TStr -> has_type vs G r TStr -> has_type vs G (EBin OpNE l r sv) TBool
+| T_NeBool G l r sv : has_type vs G l TBool -> has_type vs G r TBool -> has_type vs G (EBin OpNE l r sv) TBool
+| T_DivLit G l z sv : z <> 0%Z -> has_type vs G l TInt -> has_type vs G (EBin OpDIV l (ELit (VInt z)) sv) TInt
+| T_ModLit G l z sv : z <> 0%Z -> has_type vs G l TInt -> has_type vs G (EBin OpMOD l (ELit (VInt z)) sv) TInt
+| T_FlattenLL G l r sv t u : sv <> implied_result -> has_type vs G l (TList (TList t)) -> has_type vs ((sv, t) :: G) r u -> has_type vs G (EBin OpFLATTEN l r sv) (TList u)
+| T_FlattenLS G l r sv t u : sv <> implied_result -> has_type vs G l (TList (TSet t)) -> has_type vs ((sv, t) :: G) r u -> has_type vs G (EBin OpFLATTEN l r sv) (TList u)
+| T_FlattenSL G l r sv t u : sv <> implied_result -> has_type vs G l (TSet (TList t)) -> has_type vs ((sv, t) :: G) r u -> has_type vs G (EBin OpFLATTEN l r sv) (TSet u)
+| T_FlattenSS G l r sv t u : sv <> implied_result -> has_type vs G l (TSet (TSet t)) -> has_type vs ((sv, t) :: G) r u -> has_type vs G (EBin OpFLATTEN l r sv) (TSet u)
+| T_Attr G a fs f t : has_type vs G a (TRec fs) -> assoc String.eqb f fs = Some t -> is_pair_fs fs = false ->
+    has_type vs G (EGetAttr a f) t
+| T_Record G arg ta sv ss fs tyk : scalar_ty ta -> is_dot_name arg = false -> sv <> implied_result ->
+    has_type vs G arg ta -> has_stmts vs ((sv, ta) :: G) ss [] fs -> has_type vs G (ETransform arg sv ss tyk) (TRec fs)
+| T_TransformList G arg ta sv ss fs tyk : tyk <> TyNone -> is_dot_name arg = false -> sv <> implied_result ->
+    has_type vs G arg (TList ta) -> has_stmts vs ((sv, ta) :: G) ss [] fs ->
+    has_type vs G (ETransform arg sv ss tyk) (coll_of tyk (TRec fs))
+| T_TransformSet G arg ta sv ss fs tyk : tyk <> TyNone -> is_dot_name arg = false -> sv <> implied_result ->
+    has_type vs G arg (TSet ta) -> has_stmts vs ((sv, ta) :: G) ss [] fs ->
+    has_type vs G (ETransform arg sv ss tyk) (coll_of tyk (TRec fs))
+| T_Call G fn args vw ts t : assoc String.eqb fn vs = Some vw -> List.length (v_params vw) = List.length ts ->
+    List.length args = List.length ts -> NoDup (v_params vw) -> ~ In implied_result (v_params vw) ->
+    has_args vs G args ts -> has_type vs (combine (v_params vw) ts) (v_body vw) t -> has_type vs G (ECall fn args) t
+with has_types (vs:views) : tenv -> list expr -> ty -> Prop :=
+| TS_nil G t : has_types vs G [] t
+| TS_cons G e es t : has_type vs G e t -> has_types vs G es t -> has_types vs G (e :: es) t
+(* statements of a transform body: lets extend the environment (their names must be fresh: a let of a bound name
+   replaces that binding for good - the known finding), assigns build the record *)
+with has_stmts (vs:views) : tenv -> list stmt -> list (string * ty) -> list (string * ty) -> Prop :=
+| TSt_nil G fs : has_stmts vs G [] fs fs
+| TSt_let G x e t ss fs fs' : x <> log_string -> x <> implied_result -> tlookup x G = None ->
+    has_type vs G e t -> has_stmts vs ((x, t) :: G) ss fs fs' -> has_stmts vs G (SLet x e :: ss) fs fs'
+| TSt_assign G x e t ss fs fs' : has_type vs G e t -> has_stmts vs G ss (tput x t fs) fs' -> has_stmts vs G (SAssign x e :: ss) fs fs'
+with has_args (vs:views) : tenv -> list expr -> list ty -> Prop :=
+| TA_nil G : has_args vs G [] []
+| TA_cons G e es t ts : has_type vs G e t -> has_args vs G es ts -> has_args vs G (e :: es) (t :: ts).
 
 Scheme has_type_mut := Induction for has_type Sort Prop
-  with has_types_mut := Induction for has_types Sort Prop.
+  with has_types_mut := Induction for has_types Sort Prop
+  with has_stmts_mut := Induction for has_stmts Sort Prop
+  with has_args_mut := Induction for has_args Sort Prop.
 
-Definition env_ok (G:tenv) (sc:scope) : Prop :=
+Definition vars_ok (G:tenv) (sc:scope) : Prop :=
   forall x t, tlookup x G = Some t -> exists v, sget x sc = Some v /\ vtyped v t = true.
+(* every typed variable is bound to a value of its type, and the template-result name "__$" is unbound *)
+Definition env_ok (G:tenv) (sc:scope) : Prop := vars_ok G sc /\ sget implied_result sc = None.
 
 (* the result of a well-typed evaluation *)
 Definition good (G:tenv) (t:ty) (r:res) : Prop :=
@@ -115,24 +173,146 @@ Qed.
 Lemma forallb_app' {A} (f:A -> bool) a b : forallb f a = true -> forallb f b = true -> forallb f (a ++ b) = true.
 Proof. intros. rewrite forallb_app. apply andb_true_iff. tauto. Qed.
 
-Lemma env_ok_extend G sc sv t v : env_ok G sc -> vtyped v t = true -> env_ok ((sv, t) :: G) (sset sv v sc).
+Lemma env_ok_rebind G sc sv t v : sv <> implied_result ->
+  env_ok G sc \/ env_ok ((sv, t) :: G) sc -> vtyped v t = true -> env_ok ((sv, t) :: G) (sset sv v sc).
 Proof.
-  intros E V x t' L. unfold tlookup in L. cbn [assoc] in L. destruct (String.eqb x sv) eqn:Q.
-  - apply String.eqb_eq in Q. subst x. injection L as <-. exists v. split; [apply sget_sset_eq|exact V].
-  - apply String.eqb_neq in Q. destruct (E _ _ L) as [w [S W]]. exists w. split; [rewrite sget_sset_neq by exact Q; exact S|exact W].
+  intros NS E V. split.
+  - intros x t' L. unfold tlookup in L. cbn [assoc] in L. destruct (String.eqb x sv) eqn:Q.
+    + apply String.eqb_eq in Q. subst x. injection L as <-. exists v. split; [apply sget_sset_eq|exact V].
+    + assert (Q' := Q). apply String.eqb_neq in Q'. rewrite sget_sset_neq by exact Q'.
+      destruct E as [[E _]|[E _]]; [exact (E _ _ L)|]. apply E. unfold tlookup. cbn [assoc]. rewrite Q. exact L.
+  - rewrite sget_sset_neq by (intros Q; apply NS; symmetry; exact Q). destruct E as [[_ E]|[_ E]]; exact E.
+Qed.
+Lemma env_ok_extend G sc sv t v : sv <> implied_result -> env_ok G sc -> vtyped v t = true -> env_ok ((sv, t) :: G) (sset sv v sc).
+Proof. intros NS E V. apply env_ok_rebind; [exact NS|left; exact E|exact V]. Qed.
+Lemma env_ok_weaken G x t sc : tlookup x G = None -> env_ok ((x, t) :: G) sc -> env_ok G sc.
+Proof.
+  intros F [E N]. split; [|exact N]. intros y t' L. apply E. unfold tlookup. cbn [assoc].
+  destruct (String.eqb y x) eqn:Q; [apply String.eqb_eq in Q; subst y; rewrite F in L; discriminate|exact L].
 Qed.
 
-(* after a where: the scope variable is deleted and its previous binding put back *)
-Lemma env_ok_restore G sv t sc1 sc2 sc3 :
+(* after a where / flatten: the scope variable is deleted and its previous binding put back *)
+Lemma env_ok_restore G sv t sc1 sc2 sc3 : sv <> implied_result ->
   env_ok G sc1 -> env_ok ((sv, t) :: G) sc2 \/ (forall x, x <> sv -> sget x sc2 = sget x sc1) ->
   after_iteration where_flatten_scopevar sv (sget sv sc1) sc2 = Ok sc3 -> env_ok G sc3.
 Proof.
-  intros E1 E2 H. rewrite where_flatten_restores in H. intros x t' L.
-  rewrite (after_iteration_restore _ _ _ _ x H). destruct (String.eqb x sv) eqn:Q.
-  - apply String.eqb_eq in Q. subst x. exact (E1 _ _ L).
-  - apply String.eqb_neq in Q. destruct E2 as [E2|E2].
-    + apply E2. unfold tlookup. cbn [assoc]. apply String.eqb_neq in Q. rewrite Q. exact L.
-    + rewrite (E2 _ Q). exact (E1 _ _ L).
+  intros NS [E1 N1] E2 H. rewrite where_flatten_restores in H. split.
+  - intros x t' L.
+    rewrite (after_iteration_restore _ _ _ _ x H). destruct (String.eqb x sv) eqn:Q.
+    + apply String.eqb_eq in Q. subst x. exact (E1 _ _ L).
+    + assert (Q' := Q). apply String.eqb_neq in Q'. destruct E2 as [[E2 _]|E2].
+      * apply E2. unfold tlookup. cbn [assoc]. rewrite Q. exact L.
+      * rewrite (E2 _ Q'). exact (E1 _ _ L).
+  - rewrite (after_iteration_restore _ _ _ _ implied_result H).
+    destruct (String.eqb implied_result sv) eqn:Q; [apply String.eqb_eq in Q; symmetry in Q; contradiction|].
+    apply String.eqb_neq in Q. destruct E2 as [[_ E2]|E2]; [exact E2|rewrite (E2 _ Q); exact N1].
+Qed.
+
+(* ---- records ---- *)
+Lemma vt_rec v fs : vtyped v (TRec fs) = true -> exists m, v = VMap m /\ rec_typed m fs = true.
+Proof. destruct v; cbn [vtyped]; try discriminate. intros H. exists m. split; [reflexivity|exact H]. Qed.
+Lemma vt_scalar v t : scalar_ty t -> vtyped v t = true ->
+  match v with VBool _ | VInt _ | VStr _ => True | _ => False end.
+Proof. intros S. destruct S, v; cbn; try discriminate; trivial. Qed.
+
+Lemma rec_typed_put k v t : vtyped v t = true -> forall m fs, rec_typed m fs = true -> rec_typed (map_put k v m) (tput k t fs) = true.
+Proof.
+  intros V. induction m as [|[k0 v0] m IH]; intros [|[k1 t1] fs] H; try discriminate.
+  - cbn [map_put tput]. rewrite rec_typed_cons, String.eqb_refl, V. reflexivity.
+  - rewrite rec_typed_cons in H. apply andb_true_iff in H. destruct H as [H Hm]. apply andb_true_iff in H. destruct H as [K V0].
+    apply String.eqb_eq in K. subst k1. cbn [map_put tput]. destruct (String.compare k k0).
+    + rewrite rec_typed_cons, String.eqb_refl, V. exact Hm.
+    + rewrite !rec_typed_cons, !String.eqb_refl, V, V0. exact Hm.
+    + rewrite rec_typed_cons, String.eqb_refl, V0. apply IH. exact Hm.
+Qed.
+Lemma typed_map_get f t : forall m fs, rec_typed m fs = true -> assoc String.eqb f fs = Some t ->
+  exists v, map_get f m = Some v /\ vtyped v t = true.
+Proof.
+  induction m as [|[k0 v0] m IH]; intros [|[k1 t1] fs] H A; try discriminate.
+  rewrite rec_typed_cons in H. apply andb_true_iff in H. destruct H as [H Hm]. apply andb_true_iff in H. destruct H as [K V0].
+  apply String.eqb_eq in K. subst k1. unfold map_get. cbn [assoc] in *. destruct (String.eqb f k0).
+  - injection A as <-. exists v0. split; [reflexivity|exact V0].
+  - exact (IH _ Hm A).
+Qed.
+Lemma typed_internal m fs : rec_typed m fs = true -> is_internal_map m = is_pair_fs fs.
+Proof.
+  destruct m as [|[k1 v1] [|[k2 v2] [|[k3 v3] m]]], fs as [|[j1 t1] [|[j2 t2] [|[j3 t3] fs]]]; cbn [is_internal_map is_pair_fs];
+    try reflexivity; try discriminate; rewrite ?rec_typed_cons; intros H;
+    repeat match goal with H : _ && _ = true |- _ => apply andb_true_iff in H; destruct H end; try discriminate;
+    repeat match goal with K : String.eqb _ _ = true |- _ => apply String.eqb_eq in K; subst end; reflexivity.
+Qed.
+
+(* ---- parameters of a called view ---- *)
+Lemma bind_params_other x ps : forall avs cs, ~ In x ps -> sget x (bind_params ps avs cs) = sget x cs.
+Proof.
+  induction ps as [|p ps IH]; intros [|v avs] cs N; cbn [bind_params]; try reflexivity.
+  cbn [In] in N. rewrite IH by tauto. apply sget_sset_neq. intros ->. tauto.
+Qed.
+Lemma bind_params_ok ps : forall avs ts cs, NoDup ps -> List.length ps = List.length ts ->
+  Forall2 (fun v t => vtyped v t = true) avs ts -> vars_ok (combine ps ts) (bind_params ps avs cs).
+Proof.
+  induction ps as [|p ps IH]; intros avs ts cs ND L F.
+  - intros x t A. discriminate.
+  - destruct ts as [|t ts]; [discriminate|]. destruct F as [|v t' avs ts' Vv F]; [discriminate|].
+    inversion ND as [|? ? NI ND']. subst. injection L as L. cbn [combine bind_params].
+    intros x t0 A. unfold tlookup in A. cbn [assoc] in A. destruct (String.eqb x p) eqn:Q.
+    + apply String.eqb_eq in Q. subst x. injection A as <-. exists v. split; [|exact Vv].
+      rewrite bind_params_other by exact NI. apply sget_sset_eq.
+    + exact (IH _ _ _ ND' L F x t0 A).
+Qed.
+
+(* ---- the end of a transform ---- *)
+Lemma finish_total G sv t sc0 sc1 : sv <> implied_result ->
+  env_ok G sc0 -> env_ok ((sv, t) :: G) sc1 \/ (forall x, x <> sv -> sget x sc1 = sget x sc0) ->
+  exists sc2, (sc1' <- after_iteration transform_scopevar sv (sget sv sc0) sc1 ;;
+               Ok (match sget "." sc0 with Some v => sset "." v sc1' | None => sc1' end)) = Ok sc2 /\ env_ok G sc2.
+Proof.
+  intros NS [E0 N0] E1. rewrite transform_restores.
+  destruct (after_iteration SvDeleteThenRestore sv (sget sv sc0) sc1) as [s1| | |] eqn:AI; try discriminate.
+  cbn [bind]. eexists. split; [reflexivity|].
+  assert (R : forall x, sget x s1 = if String.eqb x sv then sget sv sc0 else sget x sc1)
+    by (intros x; exact (after_iteration_restore _ _ _ _ x AI)).
+  assert (CT : forall x t', tlookup x G = Some t' -> exists v, sget x s1 = Some v /\ vtyped v t' = true).
+  { intros x t' L. rewrite R. destruct (String.eqb x sv) eqn:Q.
+    - apply String.eqb_eq in Q. subst x. exact (E0 _ _ L).
+    - destruct E1 as [[E1 _]|E1].
+      + apply E1. unfold tlookup. cbn [assoc]. rewrite Q. exact L.
+      + apply String.eqb_neq in Q. rewrite (E1 _ Q). exact (E0 _ _ L). }
+  assert (NI : sget implied_result s1 = None).
+  { rewrite R. destruct (String.eqb implied_result sv) eqn:Q; [apply String.eqb_eq in Q; symmetry in Q; contradiction|].
+    destruct E1 as [[_ E1]|E1]; [exact E1|]. apply String.eqb_neq in Q. rewrite (E1 _ Q). exact N0. }
+  destruct (sget "." sc0) eqn:D; [|split; [exact CT|exact NI]].
+  split.
+  - intros x t' L. destruct (string_dec x ".") as [->|N].
+    + rewrite sget_sset_eq. destruct (E0 _ _ L) as [w [S W]]. rewrite D in S. injection S as ->. exists w. split; [reflexivity|exact W].
+    + rewrite sget_sset_neq by exact N. exact (CT _ _ L).
+  - rewrite sget_sset_neq by (unfold implied_result; discriminate). exact NI.
+Qed.
+
+(* ---- a transform body evaluated for every element ---- *)
+Lemma loop_total ev G sv ta ss fs k (NS : sv <> implied_result) (Kk : k = AppIfAbsent \/ k = AppAlways)
+  (Hs : forall sc, env_ok ((sv, ta) :: G) sc ->
+        exists result sc', eval_stmts ev ss [] sc = Ok (result, sc') /\ rec_typed result fs = true /\ env_ok ((sv, ta) :: G) sc') :
+  forall xs acc sc, forallb (fun x => vtyped x ta) xs = true -> forallb (fun x => vtyped x (TRec fs)) acc = true ->
+  env_ok G sc \/ env_ok ((sv, ta) :: G) sc ->
+  exists out sc', transform_loop ev k sv ss xs acc sc = Ok (out, sc') /\ forallb (fun x => vtyped x (TRec fs)) out = true
+                  /\ (xs <> [] -> env_ok ((sv, ta) :: G) sc') /\ (xs = [] -> sc' = sc).
+Proof.
+  induction xs as [|x xs IH]; intros acc sc T A E; cbn [transform_loop].
+  - exists acc, sc. split; [reflexivity|]. split; [exact A|]. split; [intros N; contradiction|reflexivity].
+  - cbn [forallb] in T. apply andb_true_iff in T. destruct T as [Tx Txs].
+    assert (E' : env_ok ((sv, ta) :: G) (sset sv x sc)) by (apply env_ok_rebind; assumption).
+    destruct (Hs _ E') as [result [sc1 [HS [TR E1]]]].
+    unfold eval_transform_stmts. rewrite HS. cbn [bind]. rewrite (proj2 E1). cbn [bind].
+    assert (AP : exists acc', append_with k acc (VMap result) = Ok acc' /\ forallb (fun x => vtyped x (TRec fs)) acc' = true).
+    { destruct Kk as [-> | ->]; cbn [append_with].
+      - destruct (existsb (value_eqb (VMap result)) acc); eexists; (split; [reflexivity|]); [exact A|].
+        apply forallb_app'; [exact A|]. cbn [forallb]. rewrite andb_true_r. exact TR.
+      - eexists. split; [reflexivity|]. apply forallb_app'; [exact A|]. cbn [forallb]. rewrite andb_true_r. exact TR. }
+    destruct AP as [acc' [-> TA]]. cbn [bind].
+    destruct (IH acc' sc1 Txs TA (or_intror E1)) as [out [sc2 [-> [To [En Ee]]]]].
+    exists out, sc2. split; [reflexivity|]. split; [exact To|]. split; [|discriminate].
+    intros _. destruct xs as [|y ys]; [rewrite (Ee eq_refl); exact E1|apply En; discriminate].
 Qed.
 
 Section Total.
@@ -143,7 +323,7 @@ Hypothesis no_count_view : assoc String.eqb ".count" vs = None.
 Definition total_ev (ev:evaluator) (P:tenv -> expr -> ty -> Prop) : Prop :=
   forall G e t sc, P G e t -> env_ok G sc -> good G t (ev sc e).
 
-Lemma where_iter_total ev G sv t rhs (Hr : forall sc, env_ok ((sv, t) :: G) sc -> good ((sv, t) :: G) TBool (ev sc rhs)) :
+Lemma where_iter_total ev G sv t rhs (NS : sv <> implied_result) (Hr : forall sc, env_ok ((sv, t) :: G) sc -> good ((sv, t) :: G) TBool (ev sc rhs)) :
   forall xs sc, forallb (fun x => vtyped x t) xs = true -> env_ok G sc \/ env_ok ((sv, t) :: G) sc ->
   exists out sc', iter_rhs ev sv rhs keep_where xs sc = Ok (out, sc') /\ forallb (fun x => vtyped x t) out = true
                   /\ (xs <> [] -> env_ok ((sv, t) :: G) sc') /\ (xs = [] -> sc' = sc).
@@ -151,12 +331,7 @@ Proof.
   induction xs as [|x xs IH]; intros sc T E; cbn [iter_rhs].
   - exists [], sc. split; [reflexivity|]. split; [reflexivity|]. split; [intros N; contradiction|reflexivity].
   - cbn [forallb] in T. apply andb_true_iff in T. destruct T as [Tx Txs].
-    assert (E' : env_ok ((sv, t) :: G) (sset sv x sc)).
-    { destruct E as [E|E]; [apply env_ok_extend; assumption|].
-      intros y t' L. unfold tlookup in L. cbn [assoc] in L. destruct (String.eqb y sv) eqn:Q.
-      - apply String.eqb_eq in Q. subst y. injection L as <-. exists x. split; [apply sget_sset_eq|exact Tx].
-      - apply String.eqb_neq in Q. destruct (E y t') as [w [S W]]; [unfold tlookup; cbn [assoc]; apply String.eqb_neq in Q; rewrite Q; exact L|].
-        exists w. split; [rewrite sget_sset_neq by exact Q; exact S|exact W]. }
+    assert (E' : env_ok ((sv, t) :: G) (sset sv x sc)) by (apply env_ok_rebind; assumption).
     destruct (Hr _ E') as [r [sc1 [-> [Vr E1]]]]. cbn [bind keep_where].
     destruct (IH sc1 Txs (or_intror E1)) as [out [sc2 [-> [To [En Ee]]]]]. cbn [bind].
     eexists _, sc2. split; [reflexivity|]. split.
@@ -164,7 +339,7 @@ Proof.
     + split; [|discriminate]. intros _. destruct xs as [|y ys]; [rewrite (Ee eq_refl); exact E1|apply En; discriminate].
 Qed.
 
-Lemma result_iter_total ev G sv t u rhs (Hr : forall sc, env_ok ((sv, t) :: G) sc -> good ((sv, t) :: G) u (ev sc rhs)) :
+Lemma result_iter_total ev G sv t u rhs (NS : sv <> implied_result) (Hr : forall sc, env_ok ((sv, t) :: G) sc -> good ((sv, t) :: G) u (ev sc rhs)) :
   forall xs sc, forallb (fun x => vtyped x t) xs = true -> env_ok G sc \/ env_ok ((sv, t) :: G) sc ->
   exists out sc', iter_rhs ev sv rhs keep_result xs sc = Ok (out, sc') /\ forallb (fun x => vtyped x u) out = true
                   /\ (xs <> [] -> env_ok ((sv, t) :: G) sc') /\ (xs = [] -> sc' = sc).
@@ -172,12 +347,7 @@ Proof.
   induction xs as [|x xs IH]; intros sc T E; cbn [iter_rhs].
   - exists [], sc. split; [reflexivity|]. split; [reflexivity|]. split; [intros N; contradiction|reflexivity].
   - cbn [forallb] in T. apply andb_true_iff in T. destruct T as [Tx Txs].
-    assert (E' : env_ok ((sv, t) :: G) (sset sv x sc)).
-    { destruct E as [E|E]; [apply env_ok_extend; assumption|].
-      intros y t' L. unfold tlookup in L. cbn [assoc] in L. destruct (String.eqb y sv) eqn:Q.
-      - apply String.eqb_eq in Q. subst y. injection L as <-. exists x. split; [apply sget_sset_eq|exact Tx].
-      - apply String.eqb_neq in Q. destruct (E y t') as [w [S W]]; [unfold tlookup; cbn [assoc]; apply String.eqb_neq in Q; rewrite Q; exact L|].
-        exists w. split; [rewrite sget_sset_neq by exact Q; exact S|exact W]. }
+    assert (E' : env_ok ((sv, t) :: G) (sset sv x sc)) by (apply env_ok_rebind; assumption).
     destruct (Hr _ E') as [r [sc1 [-> [Vr E1]]]]. cbn [bind keep_result].
     destruct (IH sc1 Txs (or_intror E1)) as [out [sc2 [-> [To [En Ee]]]]]. cbn [bind].
     eexists _, sc2. split; [reflexivity|]. split.
@@ -234,6 +404,13 @@ Definition P (G:tenv) (e:expr) (t:ty) : Prop :=
 Definition Ps (G:tenv) (es:list expr) (t:ty) : Prop :=
   exists k, forall n sc, k <= n -> env_ok G sc -> goods G t (eval_seq (eval n vs) es sc).
 
+Definition Pst (G:tenv) (ss:list stmt) (fs fs':list (string * ty)) : Prop :=
+  exists k, forall n sc result, k <= n -> env_ok G sc -> rec_typed result fs = true ->
+    exists result' sc', eval_stmts (eval n vs) ss result sc = Ok (result', sc') /\ rec_typed result' fs' = true /\ env_ok G sc'.
+Definition Pa (G:tenv) (es:list expr) (ts:list ty) : Prop :=
+  exists k, forall n sc, k <= n -> env_ok G sc ->
+    exists avs sc', eval_seq (eval n vs) es sc = Ok (avs, sc') /\ Forall2 (fun v t => vtyped v t = true) avs ts /\ env_ok G sc'.
+
 Ltac two H1 H2 k1 k2 F1 F2 := destruct H1 as [k1 F1]; destruct H2 as [k2 F2]; exists (S (Nat.max k1 k2)).
 Ltac fuel n m := destruct n as [|m]; [lia|]; cbn [eval step].
 Ltac sub F m sc E v sc1 HL VL E1 := destruct (F m sc ltac:(lia) E) as [v [sc1 [HL [VL E1]]]].
@@ -241,10 +418,11 @@ Ltac dflt HL HR :=
   match goal with |- good _ _ (eval_binexpr _ _ ?op _ _ _) => rewrite (default_strategy _ _ op _ _ _ _ _ _ _ eq_refl HL HR) end.
 Ltac done E2 := cbn [bind]; eexists _, _; split; [reflexivity|]; split; [try reflexivity|exact E2].
 
-Theorem typed_total : forall G e t, has_type G e t -> P G e t.
+Theorem typed_total : forall G e t, has_type vs G e t -> P G e t.
 Proof.
-  apply (has_type_mut (fun G e t _ => P G e t) (fun G es t _ => Ps G es t)).
-  - (* name *) intros G x t L. exists 1. intros n sc Hn E. fuel n m. destruct (E _ _ L) as [v [S V]]. rewrite S.
+  apply (has_type_mut vs (fun G e t _ => P G e t) (fun G es t _ => Ps G es t)
+                      (fun G ss fs fs' _ => Pst G ss fs fs') (fun G es ts _ => Pa G es ts)).
+  - (* name *) intros G x t L. exists 1. intros n sc Hn E. fuel n m. destruct (proj1 E _ _ L) as [v [S V]]. rewrite S.
     exists v, sc. split; [reflexivity|]. split; [exact V|exact E].
   - (* literal *) intros G v t V. exists 1. intros n sc Hn E. fuel n m. exists v, sc. split; [reflexivity|]. split; [exact V|exact E].
   - (* if *) intros G c a b t _ Hc _ Ha _ Hb. destruct Hc as [kc Fc]. destruct Ha as [ka Fa]. destruct Hb as [kb Fb].
@@ -306,29 +484,29 @@ Proof.
   - (* count set *) intros G a t _ Ha. destruct Ha as [k F]. exists (S k). intros n sc Hn E. fuel n m.
     sub F m sc E v sc1 HA VA E1. destruct (vt_set _ _ VA) as [l [-> _]].
     rewrite (sem_count_set _ _ _ _ _ _ _ no_count_view HA). done E1.
-  - (* where list *) intros G l r sv t _ Hl _ Hr. two Hl Hr k1 k2 F1 F2. intros n sc Hn E. fuel n m.
+  - (* where list *) intros G l r sv t NS _ Hl _ Hr. two Hl Hr k1 k2 F1 F2. intros n sc Hn E. fuel n m.
     sub F1 m sc E lv sc1 HL VL E1. destruct (vt_list _ _ VL) as [xs [-> Txs]].
     unfold eval_binexpr. change (assoc binop_eqb OpWHERE strategy_table) with (Some SLhsOverRhs). rewrite HL. cbn [bind].
     destruct (contained_kind_typed _ _ Txs) as [k [CK KT]]. rewrite (CK VList (or_introl eq_refl)). cbn [kind_of].
     rewrite (where_list_row _ KT). cbn [apply_efun].
-    destruct (where_iter_total (eval m vs) G sv t r (fun sc0 E0 => F2 m sc0 ltac:(lia) E0) xs sc1 Txs (or_introl E1))
+    destruct (where_iter_total (eval m vs) G sv t r NS (fun sc0 E0 => F2 m sc0 ltac:(lia) E0) xs sc1 Txs (or_introl E1))
       as [out [sc2 [-> [To [En Ee]]]]]. cbn [bind].
     destruct (after_iteration where_flatten_scopevar sv (sget sv sc1) sc2) as [sc3| | |] eqn:AI;
       try (rewrite where_flatten_restores in AI; discriminate).
     cbn [bind]. exists (VList out), sc3. split; [reflexivity|]. split; [exact To|].
-    apply (env_ok_restore G sv t sc1 sc2 sc3 E1); [|exact AI].
+    apply (env_ok_restore G sv t sc1 sc2 sc3 NS E1); [|exact AI].
     destruct xs as [|x0 xs0]; [right; intros y _; rewrite (Ee eq_refl); reflexivity|left; apply En; discriminate].
-  - (* where set *) intros G l r sv t _ Hl _ Hr. two Hl Hr k1 k2 F1 F2. intros n sc Hn E. fuel n m.
+  - (* where set *) intros G l r sv t NS _ Hl _ Hr. two Hl Hr k1 k2 F1 F2. intros n sc Hn E. fuel n m.
     sub F1 m sc E lv sc1 HL VL E1. destruct (vt_set _ _ VL) as [xs [-> Txs]].
     unfold eval_binexpr. change (assoc binop_eqb OpWHERE strategy_table) with (Some SLhsOverRhs). rewrite HL. cbn [bind].
     destruct (contained_kind_typed _ _ Txs) as [k [CK KT]]. rewrite (CK VSet (or_intror eq_refl)). cbn [kind_of].
     rewrite (where_set_row _ KT). cbn [apply_efun].
-    destruct (where_iter_total (eval m vs) G sv t r (fun sc0 E0 => F2 m sc0 ltac:(lia) E0) xs sc1 Txs (or_introl E1))
+    destruct (where_iter_total (eval m vs) G sv t r NS (fun sc0 E0 => F2 m sc0 ltac:(lia) E0) xs sc1 Txs (or_introl E1))
       as [out [sc2 [-> [To [En Ee]]]]]. cbn [bind].
     destruct (after_iteration where_flatten_scopevar sv (sget sv sc1) sc2) as [sc3| | |] eqn:AI;
       try (rewrite where_flatten_restores in AI; discriminate).
     cbn [bind]. exists (VSet out), sc3. split; [reflexivity|]. split; [exact To|].
-    apply (env_ok_restore G sv t sc1 sc2 sc3 E1); [|exact AI].
+    apply (env_ok_restore G sv t sc1 sc2 sc3 NS E1); [|exact AI].
     destruct xs as [|x0 xs0]; [right; intros y _; rewrite (Ee eq_refl); reflexivity|left; apply En; discriminate].
   - (* != int *) intros G l r sv _ Hl _ Hr. two Hl Hr k1 k2 F1 F2. intros n sc Hn E. fuel n m.
     sub F1 m sc E lv sc1 HL VL E1. destruct (vt_int _ VL) as [x ->]. sub F2 m sc1 E1 rv sc2 HR VR E2. destruct (vt_int _ VR) as [y ->].
@@ -347,11 +525,11 @@ Proof.
     sub F m sc E lv sc1 HL VL E1. destruct (vt_int _ VL) as [x ->].
     assert (HR : eval m vs sc1 (ELit (VInt z)) = Ok (VInt z, sc1)) by (destruct m as [|m']; [lia|reflexivity]).
     dflt HL HR. rewrite sem_mod. apply Z.eqb_neq in NZ. rewrite NZ. done E1.
-  - (* flatten list of lists *) intros G l r sv t u _ Hl _ Hr. two Hl Hr k1 k2 F1 F2. intros n sc Hn E. fuel n m.
+  - (* flatten list of lists *) intros G l r sv t u NS _ Hl _ Hr. two Hl Hr k1 k2 F1 F2. intros n sc Hn E. fuel n m.
     sub F1 m sc E lv sc1 HL VL E1. destruct (vt_list _ _ VL) as [xs [-> Txs]].
     unfold eval_binexpr. change (assoc binop_eqb OpFLATTEN strategy_table) with (Some SLhsOverRhs). rewrite HL. cbn [bind].
     destruct (flat_lists_typed _ _ Txs) as [ys [FI Tys]].
-    destruct (result_iter_total (eval m vs) G sv t u r (fun sc0 E0 => F2 m sc0 ltac:(lia) E0) ys sc1 Tys (or_introl E1))
+    destruct (result_iter_total (eval m vs) G sv t u r NS (fun sc0 E0 => F2 m sc0 ltac:(lia) E0) ys sc1 Tys (or_introl E1))
       as [out [sc2 [IT [To [En Ee]]]]].
     destruct xs as [|x0 xs0].
     + cbn [flat_inner] in FI. injection FI as <-. cbn [contained_kind kind_of].
@@ -361,7 +539,7 @@ Proof.
       (destruct (after_iteration where_flatten_scopevar sv (sget sv sc1) sc2) as [sc3| | |] eqn:AI;
         try (rewrite where_flatten_restores in AI; discriminate));
       cbn [bind]; exists (VList out), sc3; (split; [reflexivity|]); (split; [exact To|]);
-      (apply (env_ok_restore G sv t sc1 sc2 sc3 E1); [|exact AI]);
+      (apply (env_ok_restore G sv t sc1 sc2 sc3 NS E1); [|exact AI]);
       first [ (right; intros y _; rewrite (Ee eq_refl); reflexivity) | (destruct ys as [|y0 ys0]; [right; intros y _; rewrite (Ee eq_refl); reflexivity|left; apply En; discriminate]) ].
     + assert (Hx0 := Txs). cbn [forallb] in Hx0. apply andb_true_iff in Hx0. destruct Hx0 as [Hx0 _].
       destruct (vt_list _ _ Hx0) as [l0 [-> _]]. cbn [contained_kind kind_of].
@@ -371,13 +549,13 @@ Proof.
       (destruct (after_iteration where_flatten_scopevar sv (sget sv sc1) sc2) as [sc3| | |] eqn:AI;
         try (rewrite where_flatten_restores in AI; discriminate));
       cbn [bind]; exists (VList out), sc3; (split; [reflexivity|]); (split; [exact To|]);
-      (apply (env_ok_restore G sv t sc1 sc2 sc3 E1); [|exact AI]);
+      (apply (env_ok_restore G sv t sc1 sc2 sc3 NS E1); [|exact AI]);
       first [ (right; intros y _; rewrite (Ee eq_refl); reflexivity) | (destruct ys as [|y0 ys0]; [right; intros y _; rewrite (Ee eq_refl); reflexivity|left; apply En; discriminate]) ].
-  - (* flatten list of sets *) intros G l r sv t u _ Hl _ Hr. two Hl Hr k1 k2 F1 F2. intros n sc Hn E. fuel n m.
+  - (* flatten list of sets *) intros G l r sv t u NS _ Hl _ Hr. two Hl Hr k1 k2 F1 F2. intros n sc Hn E. fuel n m.
     sub F1 m sc E lv sc1 HL VL E1. destruct (vt_list _ _ VL) as [xs [-> Txs]].
     unfold eval_binexpr. change (assoc binop_eqb OpFLATTEN strategy_table) with (Some SLhsOverRhs). rewrite HL. cbn [bind].
     destruct (flat_sets_typed _ _ Txs) as [ys [FI Tys]].
-    destruct (result_iter_total (eval m vs) G sv t u r (fun sc0 E0 => F2 m sc0 ltac:(lia) E0) ys sc1 Tys (or_introl E1))
+    destruct (result_iter_total (eval m vs) G sv t u r NS (fun sc0 E0 => F2 m sc0 ltac:(lia) E0) ys sc1 Tys (or_introl E1))
       as [out [sc2 [IT [To [En Ee]]]]].
     destruct xs as [|x0 xs0].
     + cbn [flat_inner] in FI. injection FI as <-. cbn [contained_kind kind_of].
@@ -387,7 +565,7 @@ Proof.
       (destruct (after_iteration where_flatten_scopevar sv (sget sv sc1) sc2) as [sc3| | |] eqn:AI;
         try (rewrite where_flatten_restores in AI; discriminate));
       cbn [bind]; exists (VList out), sc3; (split; [reflexivity|]); (split; [exact To|]);
-      (apply (env_ok_restore G sv t sc1 sc2 sc3 E1); [|exact AI]);
+      (apply (env_ok_restore G sv t sc1 sc2 sc3 NS E1); [|exact AI]);
       first [ (right; intros y _; rewrite (Ee eq_refl); reflexivity) | (destruct ys as [|y0 ys0]; [right; intros y _; rewrite (Ee eq_refl); reflexivity|left; apply En; discriminate]) ].
     + assert (Hx0 := Txs). cbn [forallb] in Hx0. apply andb_true_iff in Hx0. destruct Hx0 as [Hx0 _].
       destruct (vt_set _ _ Hx0) as [l0 [-> _]]. cbn [contained_kind kind_of].
@@ -397,13 +575,13 @@ Proof.
       (destruct (after_iteration where_flatten_scopevar sv (sget sv sc1) sc2) as [sc3| | |] eqn:AI;
         try (rewrite where_flatten_restores in AI; discriminate));
       cbn [bind]; exists (VList out), sc3; (split; [reflexivity|]); (split; [exact To|]);
-      (apply (env_ok_restore G sv t sc1 sc2 sc3 E1); [|exact AI]);
+      (apply (env_ok_restore G sv t sc1 sc2 sc3 NS E1); [|exact AI]);
       first [ (right; intros y _; rewrite (Ee eq_refl); reflexivity) | (destruct ys as [|y0 ys0]; [right; intros y _; rewrite (Ee eq_refl); reflexivity|left; apply En; discriminate]) ].
-  - (* flatten set of lists *) intros G l r sv t u _ Hl _ Hr. two Hl Hr k1 k2 F1 F2. intros n sc Hn E. fuel n m.
+  - (* flatten set of lists *) intros G l r sv t u NS _ Hl _ Hr. two Hl Hr k1 k2 F1 F2. intros n sc Hn E. fuel n m.
     sub F1 m sc E lv sc1 HL VL E1. destruct (vt_set _ _ VL) as [xs [-> Txs]].
     unfold eval_binexpr. change (assoc binop_eqb OpFLATTEN strategy_table) with (Some SLhsOverRhs). rewrite HL. cbn [bind].
     destruct (flat_lists_typed _ _ Txs) as [ys [FI Tys]].
-    destruct (result_iter_total (eval m vs) G sv t u r (fun sc0 E0 => F2 m sc0 ltac:(lia) E0) ys sc1 Tys (or_introl E1))
+    destruct (result_iter_total (eval m vs) G sv t u r NS (fun sc0 E0 => F2 m sc0 ltac:(lia) E0) ys sc1 Tys (or_introl E1))
       as [out [sc2 [IT [To [En Ee]]]]].
     destruct xs as [|x0 xs0].
     + cbn [flat_inner] in FI. injection FI as <-. cbn [contained_kind kind_of].
@@ -413,7 +591,7 @@ Proof.
       (destruct (after_iteration where_flatten_scopevar sv (sget sv sc1) sc2) as [sc3| | |] eqn:AI;
         try (rewrite where_flatten_restores in AI; discriminate));
       cbn [bind]; exists (VSet out), sc3; (split; [reflexivity|]); (split; [exact To|]);
-      (apply (env_ok_restore G sv t sc1 sc2 sc3 E1); [|exact AI]);
+      (apply (env_ok_restore G sv t sc1 sc2 sc3 NS E1); [|exact AI]);
       first [ (right; intros y _; rewrite (Ee eq_refl); reflexivity) | (destruct ys as [|y0 ys0]; [right; intros y _; rewrite (Ee eq_refl); reflexivity|left; apply En; discriminate]) ].
     + assert (Hx0 := Txs). cbn [forallb] in Hx0. apply andb_true_iff in Hx0. destruct Hx0 as [Hx0 _].
       destruct (vt_list _ _ Hx0) as [l0 [-> _]]. cbn [contained_kind kind_of].
@@ -423,13 +601,13 @@ Proof.
       (destruct (after_iteration where_flatten_scopevar sv (sget sv sc1) sc2) as [sc3| | |] eqn:AI;
         try (rewrite where_flatten_restores in AI; discriminate));
       cbn [bind]; exists (VSet out), sc3; (split; [reflexivity|]); (split; [exact To|]);
-      (apply (env_ok_restore G sv t sc1 sc2 sc3 E1); [|exact AI]);
+      (apply (env_ok_restore G sv t sc1 sc2 sc3 NS E1); [|exact AI]);
       first [ (right; intros y _; rewrite (Ee eq_refl); reflexivity) | (destruct ys as [|y0 ys0]; [right; intros y _; rewrite (Ee eq_refl); reflexivity|left; apply En; discriminate]) ].
-  - (* flatten set of sets *) intros G l r sv t u _ Hl _ Hr. two Hl Hr k1 k2 F1 F2. intros n sc Hn E. fuel n m.
+  - (* flatten set of sets *) intros G l r sv t u NS _ Hl _ Hr. two Hl Hr k1 k2 F1 F2. intros n sc Hn E. fuel n m.
     sub F1 m sc E lv sc1 HL VL E1. destruct (vt_set _ _ VL) as [xs [-> Txs]].
     unfold eval_binexpr. change (assoc binop_eqb OpFLATTEN strategy_table) with (Some SLhsOverRhs). rewrite HL. cbn [bind].
     destruct (flat_sets_typed _ _ Txs) as [ys [FI Tys]].
-    destruct (result_iter_total (eval m vs) G sv t u r (fun sc0 E0 => F2 m sc0 ltac:(lia) E0) ys sc1 Tys (or_introl E1))
+    destruct (result_iter_total (eval m vs) G sv t u r NS (fun sc0 E0 => F2 m sc0 ltac:(lia) E0) ys sc1 Tys (or_introl E1))
       as [out [sc2 [IT [To [En Ee]]]]].
     destruct xs as [|x0 xs0].
     + cbn [flat_inner] in FI. injection FI as <-. cbn [contained_kind kind_of].
@@ -439,7 +617,7 @@ Proof.
       (destruct (after_iteration where_flatten_scopevar sv (sget sv sc1) sc2) as [sc3| | |] eqn:AI;
         try (rewrite where_flatten_restores in AI; discriminate));
       cbn [bind]; exists (VSet out), sc3; (split; [reflexivity|]); (split; [exact To|]);
-      (apply (env_ok_restore G sv t sc1 sc2 sc3 E1); [|exact AI]);
+      (apply (env_ok_restore G sv t sc1 sc2 sc3 NS E1); [|exact AI]);
       first [ (right; intros y _; rewrite (Ee eq_refl); reflexivity) | (destruct ys as [|y0 ys0]; [right; intros y _; rewrite (Ee eq_refl); reflexivity|left; apply En; discriminate]) ].
     + assert (Hx0 := Txs). cbn [forallb] in Hx0. apply andb_true_iff in Hx0. destruct Hx0 as [Hx0 _].
       destruct (vt_set _ _ Hx0) as [l0 [-> _]]. cbn [contained_kind kind_of].
@@ -449,34 +627,125 @@ Proof.
       (destruct (after_iteration where_flatten_scopevar sv (sget sv sc1) sc2) as [sc3| | |] eqn:AI;
         try (rewrite where_flatten_restores in AI; discriminate));
       cbn [bind]; exists (VSet out), sc3; (split; [reflexivity|]); (split; [exact To|]);
-      (apply (env_ok_restore G sv t sc1 sc2 sc3 E1); [|exact AI]);
+      (apply (env_ok_restore G sv t sc1 sc2 sc3 NS E1); [|exact AI]);
       first [ (right; intros y _; rewrite (Ee eq_refl); reflexivity) | (destruct ys as [|y0 ys0]; [right; intros y _; rewrite (Ee eq_refl); reflexivity|left; apply En; discriminate]) ].
+  - (* attribute *) intros G a fs f t _ Ha AS NP. destruct Ha as [k F]. exists (S k). intros n sc Hn E. fuel n m.
+    sub F m sc E v sc1 HA VA E1. destruct (vt_rec _ _ VA) as [mm [-> Tm]].
+    unfold eval_get_attr. rewrite HA. cbn [bind]. rewrite (typed_internal _ _ Tm), NP.
+    destruct (typed_map_get _ _ _ _ Tm AS) as [w [MG W]]. rewrite MG.
+    exists w, sc1. split; [reflexivity|]. split; [exact W|exact E1].
+  - (* transform of a scalar: one record *) intros G arg ta sv ss fs tyk SC ND NS _ Ha _ Hs.
+    destruct Ha as [k1 F1]. destruct Hs as [k2 F2]. exists (S (Nat.max k1 k2)). intros n sc Hn E. fuel n m.
+    sub F1 m sc E av sc0 HA VA E0. unfold eval_transform. rewrite ND, HA. cbn [bind]. cbv zeta.
+    destruct (F2 m (sset sv av sc0) [] ltac:(lia) (env_ok_extend _ _ _ _ _ NS E0 VA) eq_refl) as [result [sc1 [HS [TR E1]]]].
+    destruct (finish_total G sv ta sc0 sc1 NS E0 (or_introl E1)) as [sc2 [FN E2]].
+    pose proof (vt_scalar _ _ SC VA) as SV.
+    destruct av; try contradiction; unfold eval_transform_stmts; rewrite HS; cbn [bind]; rewrite (proj2 E1); cbn [bind];
+      rewrite FN; cbn [bind]; exists (VMap result), sc2; (split; [reflexivity|]); (split; [exact TR|exact E2]).
+  - (* transform over a list *) intros G arg ta sv ss fs tyk NT ND NS _ Ha _ Hs.
+    destruct Ha as [k1 F1]. destruct Hs as [k2 F2]. exists (S (Nat.max k1 k2)). intros n sc Hn E. fuel n m.
+    sub F1 m sc E av sc0 HA VA E0. destruct (vt_list _ _ VA) as [xs [-> Txs]].
+    unfold eval_transform. rewrite ND, HA. cbn [bind]. cbv zeta.
+    assert (HS : forall sc', env_ok ((sv, ta) :: G) sc' ->
+      exists result sc'', eval_stmts (eval m vs) ss [] sc' = Ok (result, sc'') /\ rec_typed result fs = true /\ env_ok ((sv, ta) :: G) sc'')
+      by (intros sc' E'; exact (F2 m sc' [] ltac:(lia) E' eq_refl)).
+    destruct tyk; [contradiction NT; reflexivity| |].
+    + destruct (loop_total (eval m vs) G sv ta ss fs set_transform_appender NS (or_introl set_appender_dedups) HS xs [] sc0 Txs eq_refl (or_introl E0))
+        as [out [sc1 [-> [To [En Ee]]]]]. cbn [bind].
+      assert (D : env_ok ((sv, ta) :: G) sc1 \/ (forall x, x <> sv -> sget x sc1 = sget x sc0))
+        by (destruct xs as [|x0 xs0]; [right; intros y _; rewrite (Ee eq_refl); reflexivity|left; apply En; discriminate]).
+      destruct (finish_total G sv ta sc0 sc1 NS E0 D) as [sc2 [-> E2]]. cbn [bind].
+      exists (VSet out), sc2. split; [reflexivity|]. split; [exact To|exact E2].
+    + destruct (loop_total (eval m vs) G sv ta ss fs list_transform_appender NS (or_intror list_appender_appends) HS xs [] sc0 Txs eq_refl (or_introl E0))
+        as [out [sc1 [-> [To [En Ee]]]]]. cbn [bind].
+      assert (D : env_ok ((sv, ta) :: G) sc1 \/ (forall x, x <> sv -> sget x sc1 = sget x sc0))
+        by (destruct xs as [|x0 xs0]; [right; intros y _; rewrite (Ee eq_refl); reflexivity|left; apply En; discriminate]).
+      destruct (finish_total G sv ta sc0 sc1 NS E0 D) as [sc2 [-> E2]]. cbn [bind].
+      exists (VList out), sc2. split; [reflexivity|]. split; [exact To|exact E2].
+  - (* transform over a set *) intros G arg ta sv ss fs tyk NT ND NS _ Ha _ Hs.
+    destruct Ha as [k1 F1]. destruct Hs as [k2 F2]. exists (S (Nat.max k1 k2)). intros n sc Hn E. fuel n m.
+    sub F1 m sc E av sc0 HA VA E0. destruct (vt_set _ _ VA) as [xs [-> Txs]].
+    unfold eval_transform. rewrite ND, HA. cbn [bind]. cbv zeta.
+    assert (HS : forall sc', env_ok ((sv, ta) :: G) sc' ->
+      exists result sc'', eval_stmts (eval m vs) ss [] sc' = Ok (result, sc'') /\ rec_typed result fs = true /\ env_ok ((sv, ta) :: G) sc'')
+      by (intros sc' E'; exact (F2 m sc' [] ltac:(lia) E' eq_refl)).
+    destruct tyk; [contradiction NT; reflexivity| |].
+    + destruct (loop_total (eval m vs) G sv ta ss fs set_transform_appender NS (or_introl set_appender_dedups) HS xs [] sc0 Txs eq_refl (or_introl E0))
+        as [out [sc1 [-> [To [En Ee]]]]]. cbn [bind].
+      assert (D : env_ok ((sv, ta) :: G) sc1 \/ (forall x, x <> sv -> sget x sc1 = sget x sc0))
+        by (destruct xs as [|x0 xs0]; [right; intros y _; rewrite (Ee eq_refl); reflexivity|left; apply En; discriminate]).
+      destruct (finish_total G sv ta sc0 sc1 NS E0 D) as [sc2 [-> E2]]. cbn [bind].
+      exists (VSet out), sc2. split; [reflexivity|]. split; [exact To|exact E2].
+    + destruct (loop_total (eval m vs) G sv ta ss fs list_transform_appender NS (or_intror list_appender_appends) HS xs [] sc0 Txs eq_refl (or_introl E0))
+        as [out [sc1 [-> [To [En Ee]]]]]. cbn [bind].
+      assert (D : env_ok ((sv, ta) :: G) sc1 \/ (forall x, x <> sv -> sget x sc1 = sget x sc0))
+        by (destruct xs as [|x0 xs0]; [right; intros y _; rewrite (Ee eq_refl); reflexivity|left; apply En; discriminate]).
+      destruct (finish_total G sv ta sc0 sc1 NS E0 D) as [sc2 [-> E2]]. cbn [bind].
+      exists (VList out), sc2. split; [reflexivity|]. split; [exact To|exact E2].
+  - (* call of another view *) intros G fn args vw ts t AV LEN LA ND NI _ Hargs _ Hbody.
+    destruct Hargs as [k1 F1]. destruct Hbody as [k2 F2]. exists (S (Nat.max k1 k2)). intros n sc Hn E. fuel n m.
+    unfold eval_call. rewrite AV. replace (List.length (v_params vw)) with (List.length args) by congruence.
+    rewrite Nat.eqb_refl. cbn [negb].
+    destruct (F1 m sc ltac:(lia) E) as [avs [sc1 [-> [FA E1]]]]. cbn [bind].
+    assert (EB : env_ok (combine (v_params vw) ts) (bind_params (v_params vw) avs [])).
+    { split; [apply bind_params_ok; assumption|]. rewrite bind_params_other by exact NI. reflexivity. }
+    destruct (F2 m _ ltac:(lia) EB) as [r [scb [-> [VR _]]]]. cbn [bind].
+    exists r, sc1. split; [reflexivity|]. split; [exact VR|exact E1].
   - (* [] *) intros G t. exists 0. intros n sc _ E. cbn [eval_seq]. exists [], sc. split; [reflexivity|]. split; [reflexivity|exact E].
   - (* e :: es *) intros G e es t _ He _ Hes. destruct He as [k1 F1]. destruct Hes as [k2 F2]. exists (Nat.max k1 k2).
     intros n sc Hn E. cbn [eval_seq].
     destruct (F1 n sc ltac:(lia) E) as [v [sc1 [-> [V E1]]]]. cbn [bind].
     destruct (F2 n sc1 ltac:(lia) E1) as [vs0 [sc2 [-> [VS E2]]]]. cbn [bind].
     exists (v :: vs0), sc2. split; [reflexivity|]. split; [cbn [forallb]; rewrite V; exact VS|exact E2].
+  - (* no statement *) intros G fs. exists 0. intros n sc result _ E TR. cbn [eval_stmts]. exists result, sc. split; [reflexivity|]. split; [exact TR|exact E].
+  - (* let *) intros G x e t ss fs fs' NL NI FR _ He _ Hss. destruct He as [k1 F1]. destruct Hss as [k2 F2]. exists (Nat.max k1 k2).
+    intros n sc result Hn E TR. cbn [eval_stmts].
+    destruct (F1 n sc ltac:(lia) E) as [r [sc1 [-> [VR E1]]]]. cbn [bind].
+    apply String.eqb_neq in NL. rewrite NL.
+    destruct (F2 n (sset x r sc1) result ltac:(lia) (env_ok_extend _ _ _ _ _ NI E1 VR) TR) as [result' [sc2 [-> [TR' E2]]]].
+    exists result', sc2. split; [reflexivity|]. split; [exact TR'|exact (env_ok_weaken _ _ _ _ FR E2)].
+  - (* assign *) intros G x e t ss fs fs' _ He _ Hss. destruct He as [k1 F1]. destruct Hss as [k2 F2]. exists (Nat.max k1 k2).
+    intros n sc result Hn E TR. cbn [eval_stmts].
+    destruct (F1 n sc ltac:(lia) E) as [r [sc1 [-> [VR E1]]]]. cbn [bind].
+    exact (F2 n sc1 _ ltac:(lia) E1 (rec_typed_put x r t VR _ _ TR)).
+  - (* no argument *) intros G. exists 0. intros n sc _ E. cbn [eval_seq]. exists [], sc. split; [reflexivity|]. split; [constructor|exact E].
+  - (* argument *) intros G e es t ts _ He _ Hes. destruct He as [k1 F1]. destruct Hes as [k2 F2]. exists (Nat.max k1 k2).
+    intros n sc Hn E. cbn [eval_seq].
+    destruct (F1 n sc ltac:(lia) E) as [v [sc1 [-> [V E1]]]]. cbn [bind].
+    destruct (F2 n sc1 ltac:(lia) E1) as [avs [sc2 [-> [FA E2]]]]. cbn [bind].
+    exists (v :: avs), sc2. split; [reflexivity|]. split; [constructor; assumption|exact E2].
 Qed.
 End Total.
 
-(* Well-typed expressions of the fragment never panic, run out of fuel for lack of a bound, or leave the model:
-   with enough fuel the evaluation returns a value of the expression's type, in a scope that still has every
-   typed variable. *)
-Theorem eval_total_on_typed_partial : forall vs G e t,
-  assoc String.eqb ".count" vs = None -> has_type G e t ->
+(* Well-typed expressions never panic, never leave the model, and do not run out of fuel for lack of a bound: there is
+   a fuel bound k (the height of the typing derivation, which includes the bodies of the views called) such that for
+   every fuel >= k the evaluation returns a value of the expression's type, in a scope that still has every typed
+   variable (and "__$" unbound). *)
+Theorem eval_total_on_typed : forall vs G e t,
+  assoc String.eqb ".count" vs = None -> has_type vs G e t ->
   exists k, forall n sc, k <= n -> env_ok G sc ->
     exists v sc', eval n vs sc e = Ok (v, sc') /\ vtyped v t = true /\ env_ok G sc'.
 Proof. intros vs G e t NV H. exact (typed_total vs NV G e t H). Qed.
+
+(* the same at EvaluateView: a view whose body is well-typed in its parameters, called on arguments of those types *)
+Theorem evaluate_view_total : forall vs name vw ts t,
+  assoc String.eqb ".count" vs = None -> assoc String.eqb name vs = Some vw ->
+  has_type vs (combine (v_params vw) ts) (v_body vw) t ->
+  exists k, forall n sc, k <= n -> env_ok (combine (v_params vw) ts) sc ->
+    exists v sc', evaluate_view n vs name sc = Ok (v, sc') /\ vtyped v t = true.
+Proof.
+  intros vs name vw ts t NV A H. destruct (eval_total_on_typed vs _ _ _ NV H) as [k F]. exists k. intros n sc Hn E.
+  unfold evaluate_view. rewrite A. destruct (F n sc Hn E) as [v [sc' [-> [V _]]]]. exists v, sc'. split; [reflexivity|exact V].
+Qed.
 
 (* non-vacuity: a where over a list of ints (fixes/C10-3) whose scope variable shadows a typed variable *)
 Definition total_example : expr :=
   EBin OpWHERE (EBin OpBITOR (EName "xs") (EList [ELit (VInt 7)]) "")
        (EBin OpGT (EName "v") (EBin OpADD (EName "n") (ELit (VInt 1)) "") "") "v".
 Example total_example_typed :
-  has_type [("xs", TList TInt); ("n", TInt); ("v", TStr)] total_example (TList TInt).
+  has_type [] [("xs", TList TInt); ("n", TInt); ("v", TStr)] total_example (TList TInt).
 Proof.
-  apply T_WhereList.
+  apply T_WhereList; [discriminate| |].
   - apply T_Concat; [apply T_Name; reflexivity|apply T_ListLit; repeat constructor].
   - apply T_Cmp; [constructor|apply T_Name; reflexivity|].
     apply T_Arith; [constructor|apply T_Name; reflexivity|apply T_Lit; reflexivity].
@@ -484,4 +753,43 @@ Qed.
 Example total_example_runs :
   eval 6 [] [("xs", VList [VInt 1; VInt 5]); ("n", VInt 2); ("v", VStr "s")] total_example
   = Ok (VList [VInt 5; VInt 7], [("v", VStr "s"); ("xs", VList [VInt 1; VInt 5]); ("n", VInt 2)]).
+Proof. vm_compute. reflexivity. Qed.
+
+(* non-vacuity of the new rules: a view that calls another view, binds lets, builds records, reads an attribute and
+   transforms a list *)
+Definition helper_view : view :=
+  {| v_params := ["q"]; v_body := ETransform (EName "q") "." [SAssign "d" (EBin OpMUL (EName ".") (ELit (VInt 2)) "")] TyOther |}.
+Definition main_body : expr :=
+  ETransform (EName "p0") "."
+    [SLet "a" (ECall "H" [EName "p0"]);
+     SLet "xs" (EList [ELit (VInt 1); ELit (VInt 2)]);
+     SAssign "rows" (ETransform (EName "xs") "x" [SAssign "y" (EBin OpADD (EName "x") (EGetAttr (EName "a") "d") "")] TyOther);
+     SAssign "n" (ECall ".count" [EName "xs"])] TyOther.
+Definition example_views : views := [("H", helper_view); ("main", {| v_params := ["p0"]; v_body := main_body |})].
+Example main_body_typed :
+  has_type example_views [("p0", TInt)] main_body
+           (TRec [("n", TInt); ("rows", TList (TRec [("y", TInt)]))]).
+Proof.
+  apply (T_Record example_views _ _ TInt); [constructor|reflexivity|discriminate|apply T_Name; reflexivity|].
+  apply (TSt_let _ _ _ _ (TRec [("d", TInt)])); [discriminate|discriminate|reflexivity| |].
+  { apply (T_Call example_views _ "H" _ helper_view [TInt]);
+      [reflexivity|reflexivity|reflexivity|constructor; [intros []|constructor]|intros [Q|[]]; discriminate
+      |apply TA_cons; [apply T_Name; reflexivity|apply TA_nil]|].
+    apply (T_Record example_views _ _ TInt); [constructor|reflexivity|discriminate|apply T_Name; reflexivity|].
+    apply (TSt_assign _ _ _ _ TInt); [|apply TSt_nil].
+    apply T_Arith; [constructor|apply T_Name; reflexivity|apply T_Lit; reflexivity]. }
+  apply (TSt_let _ _ _ _ (TList TInt)); [discriminate|discriminate|reflexivity| |].
+  { apply T_ListLit. repeat constructor. }
+  apply (TSt_assign _ _ _ _ (TList (TRec [("y", TInt)]))).
+  { apply (T_TransformList example_views _ _ TInt _ _ [("y", TInt)] TyOther); [discriminate|reflexivity|discriminate|apply T_Name; reflexivity|].
+    apply (TSt_assign _ _ _ _ TInt); [|apply TSt_nil].
+    apply T_Arith; [constructor|apply T_Name; reflexivity|].
+    apply (T_Attr _ _ _ [("d", TInt)]); [apply T_Name; reflexivity|reflexivity|reflexivity]. }
+  apply (TSt_assign _ _ _ _ TInt); [|apply TSt_nil].
+  apply (T_CountList _ _ _ TInt). apply T_Name. reflexivity.
+Qed.
+Example main_view_runs :
+  evaluate_view 8 example_views "main" [("p0", VInt 5)]
+  = Ok (VMap [("n", VInt 2); ("rows", VList [VMap [("y", VInt 11)]; VMap [("y", VInt 12)]])],
+        [("xs", VList [VInt 1; VInt 2]); ("a", VMap [("d", VInt 10)]); ("p0", VInt 5)]).
 Proof. vm_compute. reflexivity. Qed.
